@@ -1,6 +1,6 @@
 (* C15 — confinement proofs: realpath returns physical paths, the kernel walk of a physical path
    never leaves it, and the static handler serves only regular files physically below its root. *)
-From AV Require Import Lib.Base Generated.StaticGen Model.Static Model.StaticSpec.
+From AV Require Import Lib.Base Generated.StaticGen Model.Static Model.StaticSpec Proofs.StaticPaths.
 Open Scope N_scope.
 
 (* ---------------------------------------------------------------- paths *)
@@ -72,9 +72,9 @@ Proof. unfold Phys. rewrite phys_from_app. cbn [phys_from]. tauto. Qed.
 
 (* ---------------------------------------------------------------- realpath *)
 
-Lemma normal_from_tests s : is_empty s || is_dot s = false -> is_dotdot s = false -> normal_seg s = true.
+Lemma normal_from_tests s : is_empty s || is_dot s = false -> is_dotdot s = false -> memN 0 s = false -> normal_seg s = true.
 Proof.
-  intros H1 H2. apply orb_false_iff in H1 as [A B]. unfold normal_seg. rewrite A, B, H2. reflexivity.
+  intros H1 H2 H3. apply orb_false_iff in H1 as [A B]. unfold normal_seg. rewrite A, B, H2, H3. reflexivity.
 Qed.
 
 Lemma joinreal_phys f : forall fuel inprog cur work p,
@@ -85,8 +85,8 @@ Proof.
   - inversion H; subst. exact Hc.
   - destruct (is_empty s || is_dot s) eqn:E1; [eapply IH; eassumption|].
     destruct (is_dotdot s) eqn:E2; [eapply IH; [apply Phys_removelast; exact Hc|exact H]|].
-    destruct (memN 0 s); [discriminate|].
-    pose proof (normal_from_tests s E1 E2) as Hn.
+    destruct (memN 0 s) eqn:E3; [discriminate|].
+    pose proof (normal_from_tests s E1 E2 E3) as Hn.
     destruct (child f cur s) as [[c| |t|]|] eqn:Ech;
       try (eapply IH; [|exact H]; apply Phys_snoc; [exact Hc|exact Hn|rewrite Ech; reflexivity]).
     destruct (path_mem (cur ++ [s]) inprog); [discriminate|].
@@ -109,9 +109,12 @@ Qed.
 
 Lemma normal_seg_tests s : normal_seg s = true -> is_empty s || is_dot s = false /\ is_dotdot s = false.
 Proof.
-  unfold normal_seg. intro H. apply andb_true_iff in H as [H H3]. apply andb_true_iff in H as [H1 H2].
+  unfold normal_seg. intro H. apply andb_true_iff in H as [H H4]. apply andb_true_iff in H as [H H3]. apply andb_true_iff in H as [H1 H2].
   apply negb_true_iff in H1, H2, H3. rewrite H1, H2, H3. auto.
 Qed.
+
+Lemma normal_seg_nonul s : normal_seg s = true -> memN 0 s = false.
+Proof. unfold normal_seg. intro H. apply andb_true_iff in H as [_ H]. apply negb_true_iff in H. exact H. Qed.
 
 Lemma node_at_snoc f c s : node_at f (c ++ [s]) = lookup f (c ++ [s]).
 Proof. destruct c; reflexivity. Qed.
@@ -155,9 +158,145 @@ Proof.
     rewrite <- Ew in H. apply IH in H; [|exact Hp|exact Hs]. rewrite <- app_assoc in H. exact H.
 Qed.
 
+(* ---------------------------------------------------------------- lstat finds every link on a physical directory path *)
+
+Fixpoint dirs_from (f : fs) (cur : path) (w : path) : Prop :=
+  match w with
+  | [] => True
+  | s :: w' => lookup f (cur ++ [s]) = Some NDir /\ dirs_from f (cur ++ [s]) w'
+  end.
+
+Lemma dirs_from_app f a : forall c b, dirs_from f c (a ++ b) <-> dirs_from f c a /\ dirs_from f (c ++ a) b.
+Proof.
+  induction a as [|s a IH]; intros c b; cbn [dirs_from app].
+  - rewrite app_nil_r. tauto.
+  - rewrite IH. rewrite <- app_assoc. cbn [app]. tauto.
+Qed.
+
+(* in a tree, a directory's ancestors are directories *)
+Lemma wf_dirs f : wf_fs f -> forall p, node_at f p = Some NDir -> dirs_from f [] p.
+Proof.
+  intros Hwf p. induction p as [|x q IH] using rev_ind; intro H; [exact I|].
+  apply dirs_from_app. cbn [dirs_from app]. rewrite node_at_snoc in H. split; [|auto].
+  apply IH. destruct q as [|y q']; [reflexivity|].
+  cbn [node_at]. eapply Hwf; [discriminate|exact H].
+Qed.
+
+Lemma kwalk_complete f : forall w fuel links cur s n,
+  (length w < fuel)%nat -> node_at f cur = Some NDir -> phys_from f cur w -> dirs_from f cur w ->
+  normal_seg s = true -> lookup f (cur ++ w ++ [s]) = Some n ->
+  kwalk fuel links f false cur (w ++ [s]) = KOk (cur ++ w ++ [s]) n.
+Proof.
+  induction w as [|a w IH]; intros fuel links cur s n Hf Hcur Hp Hd Hs Hl; (destruct fuel as [|k]; [cbn in Hf; lia|]); cbn [kwalk app].
+  - destruct (normal_seg_tests s Hs) as [T1 T2]. rewrite (normal_seg_nonul s Hs), T1, T2, Hcur.
+    cbn [app] in Hl. rewrite Hl. destruct n; reflexivity.
+  - destruct Hp as (Hn & Hlk & Hp). destruct Hd as (Hda & Hd).
+    destruct (normal_seg_tests a Hn) as [T1 T2]. rewrite (normal_seg_nonul a Hn), T1, T2, Hcur, Hda.
+    destruct (w ++ [s]) as [|s2 w2] eqn:Ew; [destruct w; discriminate|]. rewrite <- Ew.
+    rewrite IH with (n := n); try assumption.
+    + rewrite <- app_assoc. reflexivity.
+    + cbn [length] in Hf. lia.
+    + rewrite node_at_snoc. exact Hda.
+    + rewrite <- app_assoc. exact Hl.
+Qed.
+
+Lemma klstat_complete f probe s n : wf_fs f -> Phys f probe -> normal_seg s = true ->
+  child f probe s = Some n -> klstat f (probe ++ [s]) = KOk (probe ++ [s]) n.
+Proof.
+  intros Hwf Hp Hs Hc. unfold child in Hc.
+  destruct (node_at f probe) as [[| | |]|] eqn:En; try discriminate.
+  unfold klstat. apply (kwalk_complete f probe (kfuel f (probe ++ [s])) MAXSYMLINKS [] s n); try assumption.
+  - unfold kfuel. rewrite app_length. cbn [length]. lia.
+  - reflexivity.
+  - apply wf_dirs; assumption.
+Qed.
+
+(* the loop of fix 6ac5763 establishes exactly Phys *)
+Lemma no_link_phys f : wf_fs f -> forall parts probe,
+  Phys f probe -> forallb normal_seg parts = true -> no_link_below f probe parts = true -> Phys f (probe ++ parts).
+Proof.
+  intros Hwf. induction parts as [|s r IH]; intros probe Hp Hn H; [rewrite app_nil_r; exact Hp|].
+  cbn [forallb] in Hn. apply andb_true_iff in Hn as [Hs Hn]. cbn [no_link_below] in H.
+  assert (Hl : is_link (child f probe s) = false).
+  { destruct (child f probe s) as [[c| |t|]|] eqn:Ec; try reflexivity.
+    rewrite (klstat_complete f probe s _ Hwf Hp Hs Ec) in H. discriminate. }
+  assert (Hr : no_link_below f (probe ++ [s]) r = true).
+  { destruct (klstat f (probe ++ [s])) as [q [c| |t|]| | | | |]; try exact H. discriminate. }
+  replace (probe ++ s :: r) with ((probe ++ [s]) ++ r) by (rewrite <- app_assoc; reflexivity).
+  apply IH; [apply Phys_snoc; assumption|exact Hn|exact Hr].
+Qed.
+
+Lemma phys_from_normal f : forall w c, phys_from f c w -> forallb normal_seg w = true.
+Proof.
+  induction w as [|s w IH]; intros c H; [reflexivity|]. destruct H as (A & _ & B).
+  cbn [forallb]. rewrite A. cbn [andb]. eapply IH. exact B.
+Qed.
+
+(* every segment of a path Path.resolve() returns is an ordinary name *)
+Lemma resolve_normal f p q : resolve f p = RP_ok q -> forallb normal_seg q = true.
+Proof.
+  unfold resolve. intro H.
+  destruct (joinreal (rfuel f p) f [] [] (map Seg p)) as [q0|s| | |] eqn:E; try discriminate.
+  - inversion H; subst. eapply phys_from_normal. eapply (joinreal_phys f _ _ _ _ _ (Phys_nil f) E).
+  - set (qq := snd (parse_posix (py_normpath s))) in *.
+    destruct (existsb (memN 0) qq) eqn:Ez; [discriminate|].
+    assert (q = qq) by (destruct (kstat f qq) as [? ?| | | | |]; try discriminate; inversion H; reflexivity).
+    subst q. pose proof (normpath_abs_no_dd s (joinreal_partial_abs _ _ _ _ _ _ E)) as Hdd. fold qq in Hdd.
+    apply forallb_forall. intros x Hx. unfold normal_seg.
+    assert (Hf : negb (is_empty x) && negb (is_dot x) = true).
+    { unfold qq, parse_posix in Hx. cbn [snd] in Hx. apply filter_In in Hx as [_ Hx]. exact Hx. }
+    rewrite Hf. unfold no_dd in Hdd. rewrite forallb_forall in Hdd. rewrite (Hdd x Hx). cbn [andb].
+    destruct (memN 0 x) eqn:Em; [|reflexivity].
+    assert (existsb (memN 0) qq = true) by (apply existsb_exists; exists x; auto). congruence.
+Qed.
+
+Lemma path_prefix_skipn root : forall p, path_prefix root p = true -> p = root ++ skipn (length root) p.
+Proof.
+  induction root as [|x r IH]; intros p H; [reflexivity|].
+  destruct p as [|y p]; cbn [path_prefix] in H; [discriminate|].
+  apply andb_true_iff in H as [H1 H2]. apply list_eqb_eq in H1. subst y. cbn [length skipn app]. f_equal. apply IH. exact H2.
+Qed.
+
+Lemma sandbox_phys f root x p0 : wf_fs f -> Phys f root -> resolve f x = RP_ok p0 ->
+  path_prefix root p0 = true -> no_link_below f root (skipn (length root) p0) = true -> Phys f p0.
+Proof.
+  intros Hwf Hroot Er Epre Hnl. pose proof (resolve_normal _ _ _ Er) as Hn.
+  pose proof (path_prefix_skipn root p0 Epre) as E.
+  remember (skipn (length root) p0) as rel eqn:Erel. clear Erel.
+  rewrite E in Hn. rewrite E. rewrite forallb_app in Hn. apply andb_true_iff in Hn as [_ Hn].
+  apply no_link_phys; assumption.
+Qed.
+
+(* a decidable form of wf_fs, for concrete trees *)
+Definition wf_fsb (f : fs) : bool :=
+  forallb (fun e => match rev (fst e) with
+                    | [] => true
+                    | _ :: rp => match rev rp with
+                                 | [] => true
+                                 | par => match lookup f par with Some NDir => true | _ => false end
+                                 end
+                    end) f.
+
+Lemma lookup_in f : forall x n, lookup f x = Some n -> exists q, In (q, n) f /\ q = x.
+Proof.
+  induction f as [|[q m] r IH]; intros x n H; cbn [lookup] in H; [discriminate|].
+  destruct (path_eqb q x) eqn:E.
+  - inversion H; subst. apply path_eqb_eq in E. exists q. split; [left; reflexivity|exact E].
+  - destruct (IH x n H) as (q' & A & B). exists q'. split; [right; exact A|exact B].
+Qed.
+
+Lemma wf_fsb_sound f : wf_fsb f = true -> wf_fs f.
+Proof.
+  unfold wf_fsb, wf_fs. rewrite forallb_forall. intros H p s n Hp Hl.
+  destruct (lookup_in f _ _ Hl) as (q & Hin & ->). specialize (H _ Hin). cbn [fst] in H.
+  rewrite rev_app_distr in H. cbn [rev app] in H. rewrite rev_involutive in H.
+  destruct p as [|y p']; [congruence|].
+  destruct (lookup f (y :: p')) as [[| | |]|]; try discriminate. reflexivity.
+Qed.
+
 (* ---------------------------------------------------------------- the handler *)
 
-Lemma ext_lengths : forallb (fun e => Nat.leb 2 (length (fst e))) encoding_extensions = true.
+Lemma ext_lengths : forallb (fun e => Nat.leb 2 (length (fst e)) && negb (memN 0 (fst e))) encoding_extensions = true.
 Proof. vm_compute. reflexivity. Qed.
 
 Lemma list_eqb_false_length a b : length a <> length b -> list_eqb a b = false.
@@ -165,9 +304,13 @@ Proof.
   intro H. destruct (list_eqb a b) eqn:E; [|reflexivity]. apply list_eqb_eq in E. subst. congruence.
 Qed.
 
-Lemma normal_app_ext name ext : normal_seg name = true -> (2 <= length ext)%nat -> normal_seg (name ++ ext) = true.
+Lemma normal_app_ext name ext : normal_seg name = true -> (2 <= length ext)%nat -> memN 0 ext = false ->
+  normal_seg (name ++ ext) = true.
 Proof.
-  intros Hn Hl. unfold normal_seg, is_empty, is_nil, is_dot, is_dotdot in *.
+  intros Hn Hl Hz. pose proof (normal_seg_nonul _ Hn) as Hz0.
+  assert (Hz2 : memN 0 (name ++ ext) = false) by (rewrite memN_app, Hz0, Hz; reflexivity).
+  unfold normal_seg in *. rewrite Hz2. cbn [negb]. rewrite andb_true_r. rewrite Hz0 in Hn. cbn [negb] in Hn. rewrite andb_true_r in Hn.
+  unfold is_empty, is_nil, is_dot, is_dotdot in *.
   destruct name as [|a name]; [discriminate|].
   assert (L : (3 <= length ((a :: name) ++ ext))%nat) by (rewrite app_length; cbn [length]; lia).
   rewrite (list_eqb_false_length _ [46]) by (cbn [length] in *; lia).
@@ -176,18 +319,19 @@ Proof.
 Qed.
 
 Lemma try_encodings_sound f parent name accept : forall exts q enc c,
-  forallb (fun e => Nat.leb 2 (length (fst e))) exts = true ->
+  forallb (fun e => Nat.leb 2 (length (fst e)) && negb (memN 0 (fst e))) exts = true ->
   Phys f (parent ++ [name]) ->
   try_encodings f parent name accept exts = Some (q, enc, c) ->
   exists ext, (2 <= length ext)%nat /\ q = parent ++ [name ++ ext] /\ lookup f q = Some (NFile c) /\ Phys f q.
 Proof.
   induction exts as [|[ext enc0] r IH]; intros q enc c Hl Hp H; cbn [try_encodings] in H; [discriminate|].
-  cbn [forallb fst] in Hl. apply andb_true_iff in Hl as [Hl1 Hl2]. apply Nat.leb_le in Hl1.
+  cbn [forallb fst] in Hl. apply andb_true_iff in Hl as [Hl1 Hl2]. apply andb_true_iff in Hl1 as [Hl1 Hz].
+  apply Nat.leb_le in Hl1. apply negb_true_iff in Hz.
   destruct (is_infix enc0 accept); [|eapply IH; eassumption].
   destruct (klstat f (parent ++ [name ++ ext])) as [q0 [c0| |t|]| | | | |] eqn:E; try (eapply IH; eassumption).
   inversion H; subst. clear H.
   pose proof (Phys_last_normal _ _ _ Hp) as Hn. pose proof (Phys_prefix _ _ _ Hp) as Hpar.
-  pose proof (normal_app_ext name ext Hn Hl1) as Hn2.
+  pose proof (normal_app_ext name ext Hn Hl1 Hz) as Hn2.
   unfold klstat in E. apply klstat_last in E; [|exact Hpar|exact Hn2]. cbn [app] in E. destruct E as [-> El].
   exists ext. split; [exact Hl1|]. split; [reflexivity|]. split; [exact El|].
   apply Phys_snoc; [exact Hpar|exact Hn2|].
@@ -222,19 +366,19 @@ Definition after_resolve (f : fs) (root : path) (show : bool) (accept : str) (p 
   | _ => file_lookup f p accept
   end.
 
-(* sandbox branch (with the fixed-point check of fix 706b3e0) *)
+(* sandbox branch (with the per-component symlink check of fix 6ac5763) *)
 Lemma handle_sandbox_inv f root show accept fn r :
   handle f root false show accept fn = r ->
   (exists segs p0, parse_posix fn = (false, segs) /\ resolve f (root ++ segs) = RP_ok p0 /\
-     path_prefix root p0 = true /\ resolve f p0 = RP_ok p0 /\ r = after_resolve f root show accept p0)
+     path_prefix root p0 = true /\ no_link_below f root (skipn (length root) p0) = true /\
+     r = after_resolve f root show accept p0)
   \/ r = S404 \/ r = SFuel \/ r = S500.
 Proof.
   unfold handle. destruct (parse_posix fn) as [isabs segs]. destruct isabs; [intros <-; auto|].
   destruct (resolve f (root ++ segs)) as [p0|s0| | |] eqn:Er; try (intros <-; auto; fail).
   destruct (path_prefix root p0) eqn:Epre; try (intros <-; auto; fail).
-  destruct (resolve f p0) as [p2|s2| | |] eqn:Er2; try (intros <-; auto; fail).
-  destruct (path_eqb p2 p0) eqn:Eq; try (intros <-; auto; fail).
-  apply path_eqb_eq in Eq. subst p2. intros <-. left. exists segs, p0. repeat split; auto.
+  destruct (no_link_below f root (skipn (length root) p0)) eqn:Enl; try (intros <-; auto; fail).
+  intros <-. left. exists segs, p0. repeat split; auto.
 Qed.
 
 Lemma handle_follow_inv f root show accept fn r :
@@ -297,33 +441,29 @@ Proof.
   - apply path_prefix_app. exact E.
 Qed.
 
-(* sandbox mode, when realpath did not give up at a symlink loop while resolving root/filename *)
+(* THE FULL STATEMENT: sandbox mode, any tree, any filename text, any Accept-Encoding *)
+Lemma handle_confined f root show accept fn p enc c :
+  wf_fs f -> Phys f root -> kstat f root = KOk root NDir ->
+  handle f root false show accept fn = SFile p enc c ->
+  path_prefix root p = true /\ Phys f p /\ lookup f p = Some (NFile c).
+Proof.
+  intros Hwf Hpr Hroot H.
+  apply handle_sandbox_inv in H as [(segs & p0 & Hp & Er & Epre & Enl & H)|[H|[H|H]]]; try discriminate.
+  eapply after_resolve_confined; [exact Hroot|exact (sandbox_phys _ _ _ _ Hwf Hpr Er Epre Enl)|exact Epre|symmetry; exact H].
+Qed.
+
+(* without assuming anything about the tree's shape, under the hypothesis of the unrepaired code *)
 Lemma handle_confined_partial f root show accept fn p enc c :
   kstat f root = KOk root NDir ->
   no_loop_met f (root ++ snd (parse_posix fn)) ->
   handle f root false show accept fn = SFile p enc c ->
   path_prefix root p = true /\ Phys f p /\ lookup f p = Some (NFile c).
 Proof.
-  intros Hroot Hnl H. apply handle_sandbox_inv in H as [(segs & p0 & Hp & Er & Epre & Er2 & H)|[H|[H|H]]]; try discriminate.
+  intros Hroot Hnl H. apply handle_sandbox_inv in H as [(segs & p0 & Hp & Er & Epre & _ & H)|[H|[H|H]]]; try discriminate.
   rewrite Hp in Hnl. cbn [snd] in Hnl.
   eapply after_resolve_confined; [exact Hroot|exact (resolve_phys _ _ _ Hnl Er)|exact Epre|symmetry; exact H].
 Qed.
 
-(* what the fixed-point check of fix 706b3e0 buys: it is enough that the SECOND realpath run (on the
-   path the first resolve() returned) did not give up at a loop -- whatever happened in the first *)
-Lemma handle_confined_fixedpoint f root show accept fn p enc c :
-  kstat f root = KOk root NDir ->
-  (forall p0, resolve f (root ++ snd (parse_posix fn)) = RP_ok p0 -> no_loop_met f p0) ->
-  handle f root false show accept fn = SFile p enc c ->
-  path_prefix root p = true /\ Phys f p /\ lookup f p = Some (NFile c).
-Proof.
-  intros Hroot Hnl H. apply handle_sandbox_inv in H as [(segs & p0 & Hp & Er & Epre & Er2 & H)|[H|[H|H]]]; try discriminate.
-  rewrite Hp in Hnl. cbn [snd] in Hnl.
-  eapply after_resolve_confined; [exact Hroot|exact (resolve_phys _ _ _ (Hnl p0 Er) Er2)|exact Epre|symmetry; exact H].
-Qed.
-
-(* what holds in sandbox mode for EVERY tree and filename, loops included: the path handed to the
-   file response is lexically below the root and a fixed point of resolve() *)
 Lemma file_lookup_path f p accept q enc c :
   file_lookup f p accept = SFile q enc c ->
   q = p \/ exists parent name ext, p = parent ++ [name] /\ q = parent ++ [name ++ ext].
@@ -349,7 +489,7 @@ Lemma handle_lexically_confined f root show accept fn p enc c :
   handle f root false show accept fn = SFile p enc c ->
   path_prefix root p = true.
 Proof.
-  intros Hroot H. apply handle_sandbox_inv in H as [(segs & p0 & Hp & Er & Epre & Er2 & H)|[H|[H|H]]]; try discriminate.
+  intros Hroot H. apply handle_sandbox_inv in H as [(segs & p0 & Hp & Er & Epre & _ & H)|[H|[H|H]]]; try discriminate.
   symmetry in H. apply after_resolve_file in H as [Hfl Hnd].
   destruct (file_lookup_path _ _ _ _ _ _ Hfl) as [->|(parent & name & ext & -> & ->)]; [exact Epre|].
   apply path_prefix_snoc in Epre as [E|E].
@@ -376,18 +516,18 @@ Proof.
   intro H. destruct follow.
   - apply handle_follow_inv in H as [(segs & p0 & Hp & Epre & Er & H)|[H|[H|H]]]; try discriminate.
     symmetry in H. apply after_resolve_listing in H as (A & -> & B & _). auto.
-  - apply handle_sandbox_inv in H as [(segs & p0 & Hp & Er & Epre & Er2 & H)|[H|[H|H]]]; try discriminate.
+  - apply handle_sandbox_inv in H as [(segs & p0 & Hp & Er & Epre & _ & H)|[H|[H|H]]]; try discriminate.
     symmetry in H. apply after_resolve_listing in H as (A & -> & B & _). auto.
 Qed.
 
-(* ... and, when the second realpath run did not give up at a loop, the listed directory is the physical one *)
+(* sandbox mode: the listed directory is the physical directory d below the root, and its own entries *)
 Lemma handle_listing_physical f root show accept fn d names :
-  (forall p0, resolve f (root ++ snd (parse_posix fn)) = RP_ok p0 -> no_loop_met f p0) ->
+  wf_fs f -> Phys f root ->
   handle f root false show accept fn = SListing d names ->
-  Phys f d /\ node_at f d = Some NDir /\ names = children f d.
+  path_prefix root d = true /\ Phys f d /\ node_at f d = Some NDir /\ names = children f d.
 Proof.
-  intros Hnl H. apply handle_sandbox_inv in H as [(segs & p0 & Hp & Er & Epre & Er2 & H)|[H|[H|H]]]; try discriminate.
-  rewrite Hp in Hnl. cbn [snd] in Hnl. pose proof (resolve_phys _ _ _ (Hnl p0 Er) Er2) as Hp0.
+  intros Hwf Hpr H. apply handle_sandbox_inv in H as [(segs & p0 & Hp & Er & Epre & Enl & H)|[H|[H|H]]]; try discriminate.
+  pose proof (sandbox_phys _ _ _ _ Hwf Hpr Er Epre Enl) as Hp0.
   symmetry in H. apply after_resolve_listing in H as (A & -> & B & q & Ek & ->).
   unfold kstat in Ek. apply kwalk_phys in Ek; [|exact Hp0]. cbn [app] in Ek. destruct Ek as [-> Hn]. auto.
 Qed.
@@ -404,42 +544,49 @@ Proof.
   eapply handle_listing; eassumption.
 Qed.
 
-Lemma serve_path_confined_fixedpoint f prefix root show accept path_safe p enc c :
-  kstat f root = KOk root NDir ->
-  (forall fn p0, static_resolve prefix path_safe = Some fn ->
-     resolve f (root ++ snd (parse_posix fn)) = RP_ok p0 -> no_loop_met f p0) ->
+Lemma serve_path_confined f prefix root show accept path_safe p enc c :
+  wf_fs f -> Phys f root -> kstat f root = KOk root NDir ->
   serve_path f prefix root false show accept path_safe = SFile p enc c ->
   path_prefix root p = true /\ Phys f p /\ lookup f p = Some (NFile c).
 Proof.
-  intros Hr Hn H. unfold serve_path in H. destruct (static_resolve prefix path_safe) as [fn|] eqn:E; [|discriminate].
-  eapply handle_confined_fixedpoint; [exact Hr|exact (fun p0 => Hn fn p0 eq_refl)|exact H].
+  intros Hwf Hpr Hr H. unfold serve_path in H. destruct (static_resolve prefix path_safe) as [fn|]; [|discriminate].
+  eapply handle_confined; eassumption.
 Qed.
 
-(* ---------------------------------------------------------------- witnesses *)
-(* The escape repaired by fix 706b3e0:
+Lemma serve_path_listing_physical f prefix root show accept path_safe d names :
+  wf_fs f -> Phys f root ->
+  serve_path f prefix root false show accept path_safe = SListing d names ->
+  path_prefix root d = true /\ Phys f d /\ node_at f d = Some NDir /\ names = children f d.
+Proof.
+  intros Hwf Hpr H. unfold serve_path in H. destruct (static_resolve prefix path_safe) as [fn|]; [|discriminate].
+  eapply handle_listing_physical; eassumption.
+Qed.
+
+(* ---------------------------------------------------------------- witnesses of the two repaired escapes *)
+(* Repaired by 706b3e0 / 6ac5763:
    /r (root) ; /r/a -> b ; /r/b -> a (a loop) ; /r/l -> ../o ; /o regular file "B" (outside).
    filename "a/../l": realpath gives up at the loop, Path.resolve() returns /r/l (a link) which passes
-   relative_to(root); before the fix /o was served, now the fixed-point check refuses (404). *)
+   relative_to(root); originally /o was served. *)
 Definition loop_fs : fs :=
   [([[114]], NDir); ([[114]; [97]], NLink [98]); ([[114]; [98]], NLink [97]);
    ([[114]; [108]], NLink [46; 46; 47; 111]); ([[111]], NFile [66])].
 Definition loop_fn : str := [97; 47; 46; 46; 47; 108].
 
 Lemma loop_escape_repaired :
+  wf_fsb loop_fs = true /\
   kstat loop_fs [[114]] = KOk [[114]] NDir /\
   resolve loop_fs [[114]; [97]; [46; 46]; [108]] = RP_ok [[114]; [108]] /\
   is_link (lookup loop_fs [[114]; [108]]) = true /\
-  resolve loop_fs [[114]; [108]] = RP_ok [[111]] /\
   handle loop_fs [[114]] false false [] loop_fn = S404 /\
   handle loop_fs [[114]] false true [] loop_fn = S404.
 Proof. vm_compute. repeat split; reflexivity. Qed.
 
-(* The escape that REMAINS after fix 706b3e0 (pre-compressed sibling):
+(* Repaired by 6ac5763 (it survived the fixed-point test of 706b3e0):
    /r (root) ; /r/d -> ../o ; /o dir (outside) ; /o/n -> "x/../n/../../r/d/n" (x missing) ; /o/n.gz file "S".
    filename "d/n": realpath gives up when it meets /o/n again, the rest "../../r/d/n" normalises the answer
-   back to /r/d/n; stat() there fails with ENOENT (not ELOOP) so resolve() returns /r/d/n, a FIXED POINT of
-   resolve() that is below the root lexically; with Accept-Encoding: gzip the sibling /r/d/n.gz is lstat'ed
-   through the link d and /o/n.gz is served. *)
+   back to /r/d/n; stat() there fails with ENOENT (not ELOOP) so resolve() returns /r/d/n, a fixed point of
+   resolve() below the root lexically; with Accept-Encoding: gzip the sibling /r/d/n.gz was lstat'ed through
+   the link d and /o/n.gz served.  The per-component check finds the link /r/d. *)
 Definition sib_fs : fs :=
   [([[114]], NDir); ([[114]; [100]], NLink [46; 46; 47; 111]); ([[111]], NDir);
    ([[111]; [110]], NLink [120; 47; 46; 46; 47; 110; 47; 46; 46; 47; 46; 46; 47; 114; 47; 100; 47; 110]);
@@ -447,13 +594,13 @@ Definition sib_fs : fs :=
 Definition sib_fn : str := [100; 47; 110].
 Definition gzip_str : str := [103; 122; 105; 112].
 
-Lemma confined_refuted :
+Lemma sibling_escape_repaired :
+  wf_fsb sib_fs = true /\
   kstat sib_fs [[114]] = KOk [[114]] NDir /\
-  handle sib_fs [[114]] false false gzip_str sib_fn = SFile [[114]; [100]; [110; 46; 103; 122]] (Some gzip_str) [83] /\
-  klstat sib_fs [[114]; [100]; [110; 46; 103; 122]] = KOk [[111]; [110; 46; 103; 122]] (NFile [83]) /\
-  path_prefix [[114]] [[111]; [110; 46; 103; 122]] = false /\
   resolve sib_fs [[114]; [100]; [110]] = RP_ok [[114]; [100]; [110]] /\
   is_link (lookup sib_fs [[114]; [100]]) = true /\
+  klstat sib_fs [[114]; [100]; [110; 46; 103; 122]] = KOk [[111]; [110; 46; 103; 122]] (NFile [83]) /\
+  handle sib_fs [[114]] false false gzip_str sib_fn = S404 /\
   handle sib_fs [[114]] false false [] sib_fn = S404.
 Proof. vm_compute. repeat split; reflexivity. Qed.
 
@@ -461,9 +608,12 @@ Proof. vm_compute. repeat split; reflexivity. Qed.
 Definition ex_fs : fs :=
   [([[114]], NDir); ([[114]; [102]], NFile [65]); ([[114]; [108]], NLink [46; 46; 47; 111]); ([[111]], NFile [66])].
 
+Lemma ex_hyps : wf_fs ex_fs /\ Phys ex_fs [[114]] /\ kstat ex_fs [[114]] = KOk [[114]] NDir.
+Proof.
+  split; [apply wf_fsb_sound; vm_compute; reflexivity|].
+  split; [|vm_compute; reflexivity].
+  unfold Phys. cbn [phys_from]. repeat split; vm_compute; reflexivity.
+Qed.
+
 Lemma ex_no_loop : no_loop_met ex_fs ([[114]] ++ snd (parse_posix [102])).
 Proof. intros s H. vm_compute in H. discriminate. Qed.
-
-Lemma ex_no_loop_fixedpoint :
-  forall p0, resolve ex_fs ([[114]] ++ snd (parse_posix [102])) = RP_ok p0 -> no_loop_met ex_fs p0.
-Proof. intros p0 H. vm_compute in H. inversion H; subst. intros s E. vm_compute in E. discriminate. Qed.
